@@ -55,7 +55,8 @@ func (s *Server) manifestDelete(repoStr, arg string) http.HandlerFunc {
 			return
 		}
 		// if referrers is enabled, remove entry from the referrers list
-		if *s.conf.API.Referrer.Enabled {
+		// deleting a tag leaves the manifest in the repo, so the referrers list is only changed when deleting by digest
+		if *s.conf.API.Referrer.Enabled && !types.RefTagRE.MatchString(arg) {
 			// wrap in a func to allow a return from errors without breaking the actual delete
 			err = func() error {
 				rdr, err := repo.BlobGet(desc.Digest)
